@@ -22,6 +22,16 @@ CLAIMED = {
    note="HMAC/AES-GCM/Fernet/base64 are parameters of the model; their values on the needed points are supplied to the driver by the harness. "
         "Client-side cookie code not modelled.",
    technique="Lean 4 proof (decision logic over an abstract crypto interface + length-value framing lemmas) + correspondence on mutated cookies", ref="6 C17"),
+ "C03": dict(
+   text="Lean theorems over the provider core model, for every configuration and every operation history (induction over op lists): a token that is "
+        "revoked, expired or removed stays dead for ever (dead_is_final) and no endpoint step honours it again (never_honoured_again: userinfo, "
+        "introspection, refresh, code redemption); revocation of a grant, of a client session (logout) and of a single token kills exactly "
+        "the tokens the property names (cascade theorems, using the proved identity invariant of reachable states); revocation and removal are "
+        "local (frame theorems). Tie: per-step correspondence of outcomes and full token/grant projections on generated histories + a reference "
+        "liveness oracle probing every token at userinfo and introspection after every step.",
+   note="Token exchange and cross-grant derivation are outside the model (DESIGN F-C03-b); transitive based_on cascade is proved one level deep + "
+        "checked by oracle; cryptography/token codecs idealised as fresh handles (C04 covers resolution).",
+   technique="Lean 4 proof: invariants by induction over operation histories of a state-machine model + model/implementation correspondence", ref="6 C03"),
 }
 NOT_YET = {}
 ALL = [f"C{i:02d}" for i in range(1, 21)]
